@@ -43,6 +43,7 @@ type Plan struct {
 	Corrupt []CorruptOp `json:"corrupt,omitempty"`
 	Atom    *AtomPlan   `json:"atom,omitempty"`
 	Net     *NetPlan    `json:"net,omitempty"`
+	Sync    *SyncPlan   `json:"sync,omitempty"`
 }
 
 // Engine implements sim.Engine.
@@ -114,6 +115,8 @@ func (Engine) Draw(rt *rapid.T, prop, tier string) any {
 		return drawC06(rt, p, tier)
 	case "C19", "C07", "C17":
 		return drawNet(rt, p, prop, tier)
+	case "C20":
+		return drawSync(rt, p, tier)
 	}
 	p.Blocks = drawBlocks(rt, 2, maxB, p.Proto.P2PSig)
 	nrep := rapid.IntRange(1, 3).Draw(rt, "nrep")
@@ -191,6 +194,8 @@ func (Engine) Run(t *testing.T, prop string, planAny any) *sim.Outcome {
 			r.runC06()
 		case "C19", "C07", "C17":
 			r.runNet()
+		case "C20":
+			r.runSync()
 		default:
 			r.runReplicated()
 		}
@@ -583,6 +588,8 @@ func (r *run) compare(n *Node, h uint32, when string) {
 			msg += fmt.Sprintf("\n  %s: node=%s\n  %s: ref =%s", s, clip(obs.Detail[s]), s, clip(ref.Detail[s]))
 			if s == "storage" {
 				msg += "\n  storage diff: " + clip(listDiff(obs.Dump, ref.Dump))
+			} else if s != "stateroot" {
+				msg += "\n  " + s + " diff: " + clip(listDiff(strings.Fields(obs.Detail[s]), strings.Fields(ref.Detail[s])))
 			}
 		}
 		r.violate(sim.Violatef("divergence", "divergence/"+when+"/"+d[0], "%s", msg))
